@@ -516,3 +516,30 @@ Proof.
       apply in_map_iff. exists (c0, h). split; [|exact Hin]. unfold load_chain. cbn [fst snd] in *. rewrite Hz. reflexivity. }
   rewrite Hl. reflexivity.
 Qed.
+
+(* a finalization record is never rewritten: a later snapshot that contains an already finalized
+   transaction leaves its record (the first finalization) and the stored state of that member alone *)
+Lemma fins_kept_step : forall st c t f, lookup t (fins st) = Some f -> lookup t (fins (exec_call st c)) = Some f.
+Proof.
+  intros st c t f H. destruct c as [t0|t0|t0|t0|t0|ch n|ch n|s ch r txs cns ref|s|]; cbn [exec_call fins]; try exact H.
+  destruct (fold_left (finalize_tx s) txs (fins st, outs st)) as [F O] eqn:EF.
+  destruct (finalize_fold _ _ _ _ _ _ EF) as [F1 _]. cbn [fst]. apply F1. exact H.
+Qed.
+
+Lemma fins_kept : forall l st t f, lookup t (fins st) = Some f -> lookup t (fins (exec st l)) = Some f.
+Proof.
+  induction l as [|c l IH]; intros st t f H; [exact H|].
+  unfold exec. cbn [fold_left]. apply IH. apply fins_kept_step. exact H.
+Qed.
+
+Lemma second_inclusion_no_change : forall st s ch r txs,
+  (forall t, In t txs -> lookup t (fins st) <> None) ->
+  fins (exec_call st (CWriteSnap s ch r txs false 0)) = fins st /\
+  outs (exec_call st (CWriteSnap s ch r txs false 0)) = outs st.
+Proof.
+  intros st s ch r txs. cbn [exec_call fins outs].
+  generalize (fins st) (outs st). induction txs as [|a txs IH]; intros F O H; [split; reflexivity|].
+  cbn [fold_left]. unfold finalize_tx at 2 4. cbn [fst snd].
+  destruct (lookup a F) eqn:Ea; [|exfalso; apply (H a (or_introl eq_refl)); exact Ea].
+  apply IH. intros t Ht. apply H. right. exact Ht.
+Qed.
